@@ -703,12 +703,21 @@ func (lb *LoadBalancer) proxyRequest(backend *Backend, w http.ResponseWriter, r 
 		statusCode:     http.StatusOK, // Default status code
 	}
 
+	// Release the connection slot and account for the request even when the
+	// proxy aborts the handler: httputil panics with http.ErrAbortHandler if the
+	// backend response cannot be copied to the client
+	completed := false
+	defer func() {
+		backend.DecrementConnections()
+		lb.metricsCollector.UpdateBackendConnections(backend.Name, backend.GetActiveConnections())
+		if !completed {
+			lb.recordRequestMetrics(backend, http.StatusBadGateway, startTime, r)
+		}
+	}()
+
 	// Forward the request to the selected backend
 	backend.ReverseProxy.ServeHTTP(rw, r)
-
-	// Decrement the connection count when done
-	backend.DecrementConnections()
-	lb.metricsCollector.UpdateBackendConnections(backend.Name, backend.GetActiveConnections())
+	completed = true
 
 	// Record metrics and handle passive health checks
 	lb.recordRequestMetrics(backend, rw.statusCode, startTime, r)
